@@ -611,10 +611,10 @@ func init() {
 	vfRegister(&vfProp{
 		ID: "C30", Level: "exploration", ReplayClass: "decision-exact",
 		Gen: c30Gen, Run: c30Run,
-		Rule: "case = a victim PeerConnection (Unified Plan / Plan B / Unified Plan with fallback; no local state, tracks, recvonly transceivers + data channel, tracks + data channel) and a hostile remote: 70% a valid browser-like description (incl. RTX ssrc-groups, simulcast rids, Plan-B multi-source sections, text sections) with 0-8 grammar mutations applied as offer (then CreateAnswer, SetLocalDescription, optional mutated re-offer) or as answer to the victim's offer, optionally followed by mutated candidate strings; 10% only mutated candidate strings after a valid offer; 20% a really connected peer that then sends 5-40 hostile RTP and 2-15 hostile RTCP packets protected with its own SRTP keys; after every step the bubble runs to quiescence for 3-10 s of fake time so that background work finishes inside the run; non-trivial = the run reached its end, distinct = hash of (case, per-call outcomes)",
-		Real: []string{"the victim PeerConnection with real ICE, DTLS, SCTP, SRTP, operations queue, receivers", "for rtp runs the hostile peer's PeerConnection up to the point where raw packets are written", "vnet"},
-		Stub: []string{"hostile remote: description/candidate/packet generator + mutator", "network: vnet, constant delay", "signaling: in-process"},
-		Shrink: []string{"muts", "muts2", "cands", "pkts", "rtcps"},
+		Rule:        "case = a victim PeerConnection (Unified Plan / Plan B / Unified Plan with fallback; no local state, tracks, recvonly transceivers + data channel, tracks + data channel) and a hostile remote: 70% a valid browser-like description (incl. RTX ssrc-groups, simulcast rids, Plan-B multi-source sections, text sections) with 0-8 grammar mutations applied as offer (then CreateAnswer, SetLocalDescription, optional mutated re-offer) or as answer to the victim's offer, optionally followed by mutated candidate strings; 10% only mutated candidate strings after a valid offer; 20% a really connected peer that then sends 5-40 hostile RTP and 2-15 hostile RTCP packets protected with its own SRTP keys; after every step the bubble runs to quiescence for 3-10 s of fake time so that background work finishes inside the run; non-trivial = the run reached its end, distinct = hash of (case, per-call outcomes)",
+		Real:        []string{"the victim PeerConnection with real ICE, DTLS, SCTP, SRTP, operations queue, receivers", "for rtp runs the hostile peer's PeerConnection up to the point where raw packets are written", "vnet"},
+		Stub:        []string{"hostile remote: description/candidate/packet generator + mutator", "network: vnet, constant delay", "signaling: in-process"},
+		Shrink:      []string{"muts", "muts2", "cands", "pkts", "rtcps"},
 		Assumptions: []string{"mutation is grammar-based and seeded, not coverage-guided (the cooperative/synctest binary is not built with coverage instrumentation)"},
 	})
 }
